@@ -37,13 +37,15 @@ PROPS['C13'] = dict(
 
 PROPS['C02'] = dict(
     units=[et_unit('C02', 'et-eval'), dict(target=T('h_eval', parts=4), quick=dict(scale=1.0), thorough=dict(scale=6.0, shards=16)),
+           dict(target=T('h_eval_tsan', kind='tsan', src=['harness/h_eval.cpp'], parts=4), quick=dict(args=['--prefix', 'eval-concurrent', '--no-shrink'], scale=1.0, shards=2, timeout=900), thorough=dict(args=['--prefix', 'eval-concurrent', '--no-shrink'], scale=6.0, shards=8, timeout=3600)),
            dict(target=T('h_hist', parts=4), quick=dict(args=['--focus', 'C02'], scale=0.5, shards=4), thorough=dict(args=['--focus', 'C02', '--max-size', '200'], scale=3.0, shards=16))],
     rule=('random splines (grid 2..10 points incl. far-from-origin and strongly non-uniform, every window kind, order 0..6 and 10, Q / float / double / long double) x '
           'abscissae: every grid point, one generated interior point per grid interval, both support ends and points 1/1000 inside/outside them, points outside the grid, '
           'far outside, and (floats) one ulp either side of every grid point. Oracle: linear scan + exact power-sum value in the absolute basis; at a shared grid point either '
           'adjacent piece; outside the closed support exactly 0; front/back = support ends, throw when empty. Every case counts as non-trivial (it evaluates at all grid points and both ends); distinct = distinct case text. '
           'Second unit: the history interpreter of C09/C10/C14 with the C02 oracle - after EVERY step of a generated call history (moves, cross-order assignments, in-place arithmetic, earlier evaluations, failing calls) every live spline is probed through fresh copies '
-          'inside its first intervals, at their grid points, at the right end and outside, and each value must equal the value of the polynomial the object stores (exact, Q).'),
+          'inside its first intervals, at their grid points, at the right end and outside, and each value must equal the value of the polynomial the object stores (exact, Q). '
+          'Third unit (eval-concurrent, also built with ThreadSanitizer): 2..8 threads evaluate UNRELATED splines (own grid, own object, same scalar type and order) 20..200 times each at the same abscissae; every value must be stable, equal the sequential evaluation and (Q) the exact value of the stored polynomial - the value at x must not depend on what other threads evaluate.'),
     technique='rapidcheck generation against an exact rational reference evaluation (linear scan, absolute basis)',
     level_text='Generated-input search with an exact oracle over Q and a stated rounding allowance (64 eps * sum|c_k||x-xm|^k) in the built-in floating types; thousands of splines x all abscissa classes per run. Sampling, not proof.',
     level_note='Trusted: GMP, the reference model (ref.h), exact float->rational conversion. A point-like spline may either return its point from front()/back() or throw (DESIGN 6.1).',
